@@ -12,7 +12,8 @@ RULE = ('cases: histories of 1..4 version-2 dumps parsed in sequence through the
         'objects (KdBufParser.parse, PyKdebugParser.kevents, a default-constructed KdBufParser(), or alternating). Each dump = header (random filler '
         'in its unused fields) + thread map of 0..40 entries (full-range tids/pids, pooled duplicates, utf-8 names '
         '<= 19 bytes, optional garbage after the NUL) + zero padding {0,1..7,8..4096} + 0..60 records '
-        '(random/structured bytes; records beginning with 1..63 zero bytes and all-zero records forced in). '
+        '(random/structured bytes; records beginning with 1..63 zero bytes and all-zero records forced in); sub-check big: dumps of '
+        '255..4097 records (around the block sizes of a buffered reader: 256, 512, 1024, 2048, 4096). '
         'Oracle: events == independent decoding of each record in order, nothing else; tables == plain-loop '
         'model of this file\'s map only. Non-trivial: n>=1 and m>=2; distinct by digest of the history.')
 ASSUMPTIONS = ['thread names are NUL-terminated inside the 20-byte field (xnu strlcpy) and valid utf-8',
@@ -99,7 +100,14 @@ def prop_history(ctx, case):
     ctx.note(None, nontrivial=nt, classes=set(classes))
 
 
-PROPS = {'history': prop_history}
+def prop_big(ctx, case):
+    """dumps of hundreds to thousands of records (around the block sizes of a buffered reader)"""
+    spec = dict(case['spec'], recs=files.many_records(case['count'], case['seed']))
+    prop_history(ctx, {'apis': [case['api']], 'files': [spec], 'stale': False, 'overlap': False})
+    ctx.note(['big', case['count'], case['seed']], nontrivial=True, classes=[f'records:{case["count"]}'])
+
+
+PROPS = {'history': prop_history, 'big': prop_big}
 
 
 def strategy():
@@ -113,3 +121,7 @@ def strategy():
 
 def run(ctx):
     ctx.run_given('history', strategy(), prop_history, ctx.n(400, 2500))
+    base = ctx.seed * 104723
+    big = [{'spec': {'tm': [[0x10 + j, 100 + j, b'p%d' % j, b''] for j in range(i % 3)], 'pad': [0, 8, 3, 4096][i % 4], 'is64': 1, 'tick': 0, 'fill': 0},
+            'count': c, 'seed': base + i, 'api': ['kdbuf', 'pykdebug'][(i + ctx.seed) % 2]} for i, c in enumerate(files.BIG_COUNTS)]
+    ctx.run_enum('big', big, prop_big, exhaustive_label='dumps of 255..4097 records, every count of files.BIG_COUNTS')
